@@ -47,9 +47,24 @@ def compiled_part(acc, tier):
     env_extra = {"NUMBA_BOUNDSCHECK": "1"}
     nsh = 8
     procs = [subproc.popen_module("mc.boundsworker", [tier, sh, nsh], True, env_extra, tag="-boundscheck") for sh in range(nsh)]
+    import subprocess
+
+    deadline = time.time() + 900
     for p in procs:
-        out, err = p.communicate(timeout=1200)
+        try:
+            out, err = p.communicate(timeout=max(1, deadline - time.time()))
+        except subprocess.TimeoutExpired:
+            # compiled code cannot be interrupted from inside: a search that never ends on a broken tree is cut here
+            for q in procs:
+                if q.poll() is None:
+                    q.kill()
+            p.communicate()
+            acc.caps.append("a compiled bounds-checked worker did not finish within 900 s and was killed")
+            continue
         if p.returncode != 0:
+            if p.returncode < 0:
+                acc.caps.append(f"a compiled bounds-checked worker was killed (signal {-p.returncode})")
+                continue
             raise HarnessError("boundsworker failed: " + err[-1500:])
         o = json.loads(out.strip().splitlines()[-1])
         acc.c["compiled_boundschecked_calls"] += o["calls"]
